@@ -85,11 +85,61 @@ def check_case(run, case):
         if not mon.pops and any(not any(l[0] in 'EW' for _, l in secs) for _, secs in res.segmented):
             run.violation('guesser emitted nothing although supported passwords were trained', case); return
         run.ev('sum_checked')
+        if case.get('linked') and mon.pops and sum(emitted.values()) <= 20000 and not case.get('prefixcount'):
+            if not check_linked_folder(run, case, emitted):
+                return
         run.case(h([case['items'], case['encoding'], case['coverage'], case['ngram']]) if nontriv else None)
         run.sample({'list': case['items'][:6], 'encoding': case['encoding'], 'coverage': case['coverage'], 'ngram': case['ngram'],
                     'segmentation_example': [res.segmented[0][0], res.segmented[0][1]], 'guesses': sum(emitted.values()), 'prob_sum': total[0]})
     finally:
         repo.drop_rules(name)
+
+def check_linked_folder(run, case, emitted):
+    """The same list trained by the real trainer.py under a rule name that is a symbolic link to a folder kept somewhere else (rulesets on another disk):
+    empty before ('first'), or holding the ruleset of another list ('retrain').  pcfg_guesser.py -r <name> must then generate what the ruleset trained
+    in-process generates - the training passwords among it."""
+    import shutil
+    from .. import cli, session
+    s = repo.scratch()
+    nm = f'c03lnk_{os.getpid()}'
+    link = os.path.join(s, 'Rules', nm)
+    target = os.path.join(s, f'elsewhere_{os.getpid()}', nm)
+    tf = os.path.join(s, f'c03lnk_{os.getpid()}.txt')
+    try:
+        os.makedirs(target)
+        os.makedirs(os.path.dirname(link), exist_ok=True)
+        os.symlink(target, link)
+        args = ['-e', case['encoding'], '-c', str(case['coverage']), '-n', str(case['ngram']), '-a', str(case['alphabet'])] + (['--save_sensitive'] if case.get('save_sensitive') else [])
+        if case['linked'] == 'retrain':
+            open(tf, 'wb').write(b'zzzzfirst1\nzzzzfirst1\nqqqq##77\nother!list\n')
+            cli.run_cli('trainer.py', ['-r', nm, '-t', tf, '-e', 'ascii'], stdin_mode='devnull', timeout=120)
+        open(tf, 'wb').write(trainlists.render_plain([(p_, k) for p_, k in case['items']], case['encoding']))
+        out, err, rc, to = cli.run_cli('trainer.py', ['-r', nm, '-t', tf] + args, stdin_mode='devnull', timeout=120)
+        run.ev('trainings_into_a_linked_rule_folder')
+        if to:
+            run.inconc('CLI training timed out'); return True
+        sn = session.new_session_name('c03lnk')
+        gout, gerr, grc, gto = cli.run_cli('pcfg_guesser.py', ['-r', nm, '-s', sn, '--skip_brute'], stdin_mode='devnull', timeout=120, max_out=8 << 20)
+        session.drop_session(sn)
+        if gto:
+            run.inconc('CLI guesser timed out'); return True
+        got = Counter(gout.decode('utf-8', 'replace').split('\n')[:-1] if gout else [])
+        if got != emitted:
+            lost = list((emitted - got).elements())[:5]; extra = list((got - emitted).elements())[:5]
+            run.violation(f'trainer.py -r NAME with Rules/NAME a symbolic link to a folder elsewhere ({case["linked"]}): pcfg_guesser.py -r NAME does not generate what the ruleset '
+                          f'of this list generates ({sum(got.values())} guesses instead of {sum(emitted.values())}; missing {lost}, foreign {extra})', case,
+                          observed={'trainer_tail': out[-300:].decode('utf-8', 'replace'), 'guesser_stderr_tail': gerr[-200:].decode('utf-8', 'replace'),
+                                    'folder_now': sorted(os.listdir(target))[:12]})
+            return False
+        run.ev('linked_folder_rulesets_equal_to_the_in_process_one')
+        return True
+    finally:
+        if os.path.islink(link):
+            os.unlink(link)
+        shutil.rmtree(os.path.dirname(target), ignore_errors=True)
+        shutil.rmtree(link + '.partial', ignore_errors=True)
+        if os.path.exists(tf):
+            os.remove(tf)
 
 def run(run, rng):
     run.required_events = ['SEGMENTED', 'POP', 'GUESS', 'passwords_checked', 'multiword_passwords_checked', 'sum_checked']
@@ -99,7 +149,10 @@ def run(run, rng):
                        'encodings: ASCII-compatible single/multi-byte encodings; UTF-16/32 are not usable for rulesets (ASCII-only config/grammar files)',
                        'languages above 300000 guesses are not enumerated (inconclusive)']
     for i in range(N[run.tier]):
-        run.guard(trained.gen_train_case(rng, max_len_choices=(21, 21, 8)), check_case, seconds=240)
+        case = trained.gen_train_case(rng, max_len_choices=(21, 21, 8))
+        if i % 12 == 5:
+            case['linked'] = ['first', 'retrain'][(i // 12) % 2]
+        run.guard(case, check_case, seconds=240)
 
 def replay(run, case):
     check_case(run, case['case'])
